@@ -36,14 +36,56 @@ fn status_json(version: &str) -> String {
     )
 }
 
+fn big_status_json(version: &str, n: usize, pad: usize) -> String {
+    // a healthy aggregate status whose connection summary is large and non-ASCII
+    let detail = r#"{"status":"RUNNING","message":"ok"}"#;
+    let mut entries = String::new();
+    for i in 0..n {
+        if i > 0 {
+            entries.push(',');
+        }
+        entries.push_str(&format!(
+            r#"{{"userName":"{}é{}","ip":"169.254.169.254","port":80,"processCmdLine":"/usr/bin/çà€ {}","responseStatus":"200 OK","count":{}}}"#,
+            "a".repeat(pad), i, "ü".repeat(20), i + 1
+        ));
+    }
+    format!(
+        r#"{{"timestamp":"2026-01-01T00:00:00Z","proxyAgentStatus":{{"version":"{}","status":"SUCCESS","monitorStatus":{d},"keyLatchStatus":{d},"ebpfProgramStatus":{d},"proxyListenerStatus":{d},"telemetryLoggerStatus":{d},"proxyConnectionsCount":1}},"proxyConnectionSummary":[{e}],"failedAuthenticateSummary":[{e}]}}"#,
+        version,
+        d = detail,
+        e = entries
+    )
+}
+
+fn file_status_code(dir: &std::path::Path, seq: &str) -> char {
+    // what the extension REPORTS: the status file written by common::report_status
+    let f = dir.join(format!("{}.status", seq));
+    let text = match std::fs::read_to_string(&f) {
+        Ok(t) => t,
+        Err(_) => return '8',
+    };
+    match serde_json::from_str::<serde_json::Value>(&text) {
+        Ok(v) => match v[0]["status"]["status"].as_str() {
+            Some(s) => code(s),
+            None => '8',
+        },
+        Err(_) => '8',
+    }
+}
+
+// Each step prints two digits: the status the monitor loop holds in memory, and the status in the status file
+// the extension writes (9 9 = the step panicked).
 fn run_polls(polls: &str) -> String {
     use gpaext::structs::{FormattedMessage, StatusObj};
+    use std::os::unix::process::ExitStatusExt;
     let dir = std::path::Path::new(proxy_agent_shared::proxy_agent_aggregate_status::PROXY_AGENT_AGGREGATE_STATUS_FOLDER);
     let file = dir.join(proxy_agent_shared::proxy_agent_aggregate_status::PROXY_AGENT_AGGREGATE_STATUS_FILE_NAME);
     if std::env::var("C20_PRIVATE_VAR_LOG").is_err() {
         return "!no-private-mount".to_string();
     }
     let _ = std::fs::create_dir_all(dir);
+    let status_dir = std::path::PathBuf::from("/var/log/c20-status");
+    let _ = std::fs::create_dir_all(&status_dir);
     // the extension's logger must be initialised once (get_logger_key panics otherwise); log into the private tmpfs
     static LOGGER: std::sync::Once = std::sync::Once::new();
     LOGGER.call_once(|| gpaext::logger::init_logger("/var/log/c20-ext-log".to_string(), "C20Driver.log"));
@@ -63,36 +105,57 @@ fn run_polls(polls: &str) -> String {
     let mut st = StatusState::new();
     let mut svc = ServiceState::default();
     let mut o = String::new();
+    let mut k = 0usize;
     for p in polls.chars() {
-        match p {
-            'E' => {
-                let _ = std::fs::remove_file(&file);
+        k += 1;
+        let r = std::panic::catch_unwind(std::panic::AssertUnwindSafe(|| {
+            match p {
+                // install attempts of the monitor loop (report_proxy_agent_service_status reports by itself)
+                'I' | 'F' | 'X' => {
+                    let output = match p {
+                        'I' => Ok(std::process::Output { status: std::process::ExitStatus::from_raw(0), stdout: vec![], stderr: vec![] }),
+                        'F' => Ok(std::process::Output { status: std::process::ExitStatus::from_raw(3 << 8), stdout: vec![], stderr: b"failed".to_vec() }),
+                        _ => Err(std::io::Error::new(std::io::ErrorKind::NotFound, "no setup tool")),
+                    };
+                    gpaext::service_main::verif_taps::report_proxy_agent_service_status(
+                        output, status_dir.clone(), "7", &mut status, &mut st);
+                    return;
+                }
+                'E' => {
+                    let _ = std::fs::remove_file(&file);
+                }
+                'G' => {
+                    std::fs::write(&file, "{ not json").unwrap();
+                }
+                'M' => {
+                    std::fs::write(&file, status_json("1.0.0-other")).unwrap();
+                }
+                'B' => {
+                    std::fs::write(&file, big_status_json(&ext_version, 150 + (k % 7) * 40, k % 4)).unwrap();
+                }
+                _ => {
+                    std::fs::write(&file, status_json(&ext_version)).unwrap();
+                }
             }
-            'G' => {
-                std::fs::write(&file, "{ not json").unwrap();
-            }
-            'M' => {
-                std::fs::write(&file, status_json("1.0.0-other")).unwrap();
-            }
-            _ => {
-                std::fs::write(&file, status_json(&ext_version)).unwrap();
-            }
+            // restored_in_error = true: the rollback step (runs the setup tool) is not part of this property
+            let mut restored = true;
+            gpaext::service_main::verif_taps::report_proxy_agent_aggregate_status(
+                &ext_version, &mut status, &mut st, &mut restored, &mut svc);
+            // the monitor loop then writes the status file
+            gpaext::common::report_status(status_dir.clone(), "7", &status);
+        }));
+        if r.is_err() {
+            o.push_str("99");
+        } else {
+            o.push(code(&status.status));
+            o.push(file_status_code(&status_dir, "7"));
         }
-        // restored_in_error = true: the rollback step (runs the setup tool) is not part of this property
-        let mut restored = true;
-        gpaext::service_main::verif_taps::report_proxy_agent_aggregate_status(
-            &ext_version,
-            &mut status,
-            &mut st,
-            &mut restored,
-            &mut svc,
-        );
-        o.push(code(&status.status));
     }
     o
 }
 
 pub fn main() {
+    std::panic::set_hook(Box::new(|_| {}));
     let stdin = io::stdin();
     let stdout = io::stdout();
     let mut out = io::BufWriter::new(stdout.lock());
